@@ -112,6 +112,22 @@ Definition validate (ct : ctable) (b : bundle) (rq : N) : bool :=
 Definition validate_many (ct : ctable) (b : bundle) (rqs : list N) : bool :=
   existsb (fun t => match t with TVer _ cs => forallb (clookup ct cs) rqs | _ => false end) (b_ts b).
 
+(* ---- filters that look at the whole token list *)
+(* Bundle.IsMissingDischarge(tp): permission tokens with a ticket for tp that no discharge in the list answers *)
+Definition missing_for (loc : N) (ts : list tok) (tp : N) (t : tok) : bool :=
+  is_perm loc t &&
+  match tok_mac t with
+  | Some m => existsb (fun lt => (fst lt =? tp) && match dis_for loc ts (snd lt) with [] => true | _ => false end) (m_tickets m)
+  | None => false
+  end.
+(* AllowsAccess(a1, ..., an): verified tokens whose verified caveats clear all the accesses *)
+Definition allows (ct : ctable) (rqs : list N) (t : tok) : bool :=
+  match t with TVer _ cs => forallb (clookup ct cs) rqs | _ => false end.
+(* the discharges of a permission token: non-permission macaroons whose key-id is one of its tickets *)
+Definition discharges_perm (loc : N) (p t : tok) : bool :=
+  is_perm loc p && is_dis loc t &&
+  match kid_of t with Some k => existsb (N.eqb k) (tickets_of p) | None => false end.
+
 (* ---- attenuation: tables from direct clone+Add+String calls *)
 (* atable: (token id, caveat-list id) -> Some new id / None (Add refused) ; cs_att: (cs, caveat-list id) -> new cs *)
 Definition atable := list (N * N * option N).
